@@ -150,9 +150,8 @@ def obligations(tier: str):
         add("lexicase", "lexicase_2cases", cases=2, M=3, K=2, table=2, timeout=200)
     add("lexicase", "lexicase_epsilon_1case", cases=1, M=3, K=2, table=3, epsilon=True)
     add("lexicase", "lexicase_epsilon_2cases", cases=2, M=3, K=1 if not T else 2, table=2, epsilon=True, timeout=200)
-    if T:
-        # (target == population size is lexicase_2cases_pop2; lexicase selects without replacement, so a
-        # target beyond the population size is outside the property's "never more copies than present")
-        # (three cases: 4800 paths explored without a failing one, but CrossHair ended "not confirmed" - an
-        # unknown path - twice; two cases is the stated bound)
+    # (target == population size is lexicase_2cases_pop2; lexicase selects without replacement, so a
+    # target beyond the population size is outside the property's "never more copies than present")
+    # (three cases: 4800 paths explored without a failing one, but CrossHair ended "not confirmed" - an
+    # unknown path - twice; two cases is the stated bound)
     return obs
